@@ -35,8 +35,9 @@ def run(chk):
                 '(kind, pass, spelling, bundled)) shapes for well-formed cases, distinct (table, argv, schedule) otherwise' % L)
     chk.cov['exhaustive_over'] = 'argv of length <= %d over 12 tokens x 4 fixed tables x 6 pass schedules = %d cases (safety clause)' % (L, exh)
     chk.assumptions += ['libast_print_error/libast_print_warning are wrapped: arguments are formatted (so they are read) but not written to stderr',
-                        'termination is decided on logical steps (error/warning calls, help-handler and abstract-handler calls); a loop that '
-                        'makes none of these calls is caught only by the wall-clock watchdog of the runner',
+                        'termination is decided on logical steps (error/warning calls, help-handler and abstract-handler calls, bound '
+                        '4*argv bytes+16); a loop that makes none of these calls cannot be counted and is caught only by a backstop: 3 s of '
+                        'process CPU time (ITIMER_VIRTUAL) inside one spifopt_parse call (normal cost ~1e-5 s), reported as hang-watchdog',
                         'SPIFOPT_FLAG_ARRAY / SPIFOPT_FLAG_COUNTER (declared, unimplemented) are not driven']
     chk.require('exhaustive_cases', exh)
     chk.require('wellformed_cases', rnd // 2 - 16)
